@@ -4,7 +4,7 @@
    abstract state [s]; [run] folds it over a history, [trace] collects the observations.  [veq] is
    equality of everything the property talks about (parameters, BatchNorm statistics, training flags of
    wrapper / seed / layers / the separately handled sub-set S of modules (frozen BatchNorm, Dropout, samplers;
-   [OFlip] flips them), sampled coefficients, sampling options (disable_sampling / hard / gumbel / temperature, [OSetOpt]), position of the random stream, cost specification);
+   [OFlip] flips them), sampled coefficients, sampling options (disable_sampling / hard / gumbel / temperature, [OSetOpt]), requires_grad mode ([OSetTrain]), position of the random stream, cost specification);
    the only other component, [polluted] (shape keys that a cost call leaves in a plain layer's
    __dict__), influences no observation (C18_step_respects_visible).
    All statements quantify over every configuration, every state and every (unbounded) history. *)
